@@ -36,6 +36,8 @@ def generate(w, rng, name, st):
     s = g(w, rng, st)
     if s is None:
         return None
+    if isinstance(s, tuple) and s[0] == '__raw__':
+        return s[1]            # a complete step of another operation (set-up step of a failing template)
     s['op'] = name
     return s
 
@@ -368,11 +370,15 @@ def g_add_facility(w, rng, st):
 @op('add_facility', 'add')
 def x_add_facility(w, s, st, info):
     from fim.slivers.capacities_labels import Labels, Capacities
+    xkw = dict(s.get('xkw') or {})
+    if xkw.pop('nstype_none', None):
+        xkw['nstype'] = None
     if s.get('tuples'):
-        ifs = [(n, Labels(**l), Capacities(**c)) for n, l, c in s['tuples']]
-        w.topo.add_facility(name=s['name'], site=s['site'], node_id=s['id'], interfaces=ifs)
+        ifs = [(n, Labels(**l) if isinstance(l, dict) else l, Capacities(**c) if isinstance(c, dict) else c)
+               for n, l, c in s['tuples']]
+        w.topo.add_facility(name=s['name'], site=s['site'], node_id=s['id'], interfaces=ifs, **xkw)
     else:
-        w.topo.add_facility(name=s['name'], site=s['site'], node_id=s['id'], **build_kwargs(s.get('kw')))
+        w.topo.add_facility(name=s['name'], site=s['site'], node_id=s['id'], **dict(build_kwargs(s.get('kw')), **xkw))
 
 
 @op('add_switch', 'add')
@@ -384,7 +390,10 @@ def g_add_switch(w, rng, st):
 
 @op('add_switch', 'add')
 def x_add_switch(w, s, st, info):
-    w.topo.add_switch(name=s['name'], site=s['site'], node_id=s['id'], nports=s['nports'])
+    xkw = dict(s.get('xkw') or {})        # raw (possibly ill-typed) keyword arguments of the failing templates
+    if xkw.pop('nstype_none', None):
+        xkw['nstype'] = None
+    w.topo.add_switch(name=s['name'], site=s['site'], node_id=s['id'], nports=s['nports'], **xkw)
 
 
 @op('add_network_service', 'add')
@@ -1278,10 +1287,40 @@ def failing_variants(w, rng, st):
                     'id': None, 'nports': 2})
     out.append({'template': 'facility_bad_kwarg', 'call': 'add_facility', 'name': 'fac9', 'site': 'UKY', 'id': None,
                 'kw': {'labels': 12}})
-    if anyid:
-        i = rng.choice(anyid)
-        out.append({'template': 'facility_derived_id_taken', 'call': 'add_facility', 'name': 'fac9', 'site': 'UKY',
-                    'id': 'fx', 'pre_taken': 'fx-ns'})
+    # the rejected argument belongs to a LATER construction step of the compound call (service, k-th port): the node
+    # and whatever was built before that step must be gone again. Derived ids ('<id>-ns', '<id>-int<k>') are made
+    # to collide by a set-up step that first stores a node under exactly that id.
+    fresh_fac = pick_name(rng, ['fac8', 'fac9', 'facA'], names, 1.0)
+    fresh_sw = pick_name(rng, ['sw8', 'sw9', 'swA'], names, 1.0)
+
+    def taken(suffix):
+        base = w.new_id(rng)
+        return base, {'op': 'add_node', 'name': 'aux-' + base, 'site': 'UKY', 'ntype': 'VM', 'id': base + suffix, 'kw': {}}
+    for tname, kw in (('switch_bad_nslabels', {'nslabels': 12}), ('switch_bad_nstype', {'nstype_none': True}),
+                      ('switch_bad_portlabels', {'portlabels': 12}), ('switch_bad_portcapacities', {'portcapacities': 'x'})):
+        out.append({'template': tname, 'call': 'add_switch', 'name': fresh_sw, 'site': 'UKY', 'id': None,
+                    'nports': 2, 'xkw': kw})
+    for suffix, pos in (('-ns', 'service'), ('-int1', 'port1/3'), ('-int2', 'port2/3'), ('-int3', 'port3/3')):
+        base, setup = taken(suffix)
+        out.append({'template': 'switch_derived_id_taken', 'pos': pos, 'call': 'add_switch', 'name': fresh_sw,
+                    'site': 'UKY', 'id': base, 'nports': 3, 'setup': setup})
+    for tname, kw in (('facility_bad_nslabels', {'nslabels': 12}), ('facility_bad_nstype', {'nstype_none': True})):
+        out.append({'template': tname, 'call': 'add_facility', 'name': fresh_fac, 'site': 'UKY', 'id': None, 'kw': {},
+                    'xkw': kw})
+    for suffix, pos in (('-ns', 'service'), ('-int', 'interface')):
+        base, setup = taken(suffix)
+        out.append({'template': 'facility_derived_id_taken', 'pos': pos, 'call': 'add_facility', 'name': fresh_fac,
+                    'site': 'UKY', 'id': base, 'kw': {}, 'setup': setup})
+    for k in range(3):
+        base, setup = taken('-int%d' % k)
+        out.append({'template': 'facility_derived_id_taken', 'pos': 'tuple%d/3' % k, 'call': 'add_facility',
+                    'name': fresh_fac, 'site': 'UKY', 'id': base, 'setup': setup,
+                    'tuples': [['%s-i%d' % (fresh_fac, i), {'vlan': str(100 + i)}, {'bw': 10}] for i in range(3)]})
+    for k in range(3):
+        tl = [['%s-i%d' % (fresh_fac, i), {'vlan': str(100 + i)}, {'bw': 10}] for i in range(3)]
+        tl[k][1] = 12          # labels of the k-th interface tuple are not Labels
+        out.append({'template': 'facility_bad_tuple', 'pos': '%d/3' % k, 'call': 'add_facility', 'name': fresh_fac,
+                    'site': 'UKY', 'id': None, 'tuples': tl})
     # ---- sub-interfaces
     ded = [cp for n in nodes for cp in st.node_interfaces(n) if st.typ(cp) == 'DedicatedPort']
     if ded:
@@ -1361,12 +1400,23 @@ def g_failing(w, rng, st):
     vs = failing_variants(w, rng, st)
     if not vs:
         return None
+    def expand(v):
+        # a template with a set-up step (an ordinary, succeeding call that creates the collision) runs it first
+        v = dict(v)
+        setup = v.pop('setup', None)
+        return ([dict(setup)] if setup else []) + [dict(v, op='failing')]
     if rng.random() < 0.35 and not w.queue and w.stats.c.get('probe.failing_catalogue_enumerations', 0) < 2:
         # fault enumeration: every template x position applicable in this state, one after another
-        w.queue = [dict(v, op='failing') for v in vs[1:]]
+        steps = [x for v in vs for x in expand(v)]
         w.stats.inc('probe.failing_catalogue_enumerations')
-        return vs[0]
-    return rng.choice(vs)
+    else:
+        steps = expand(rng.choice(vs))
+    w.queue = steps[1:] + w.queue
+    first = steps[0]
+    if first.get('op') == 'failing':
+        first.pop('op')
+        return first
+    return ('__raw__', first)
 
 
 @op('failing', 'add')
@@ -1392,9 +1442,6 @@ def x_failing(w, s, st, info):
             else:
                 ifs.append(get_iface(w, r))
         w.topo.add_network_service(name=s['name'], nstype=ServiceType[s['nstype']], interfaces=ifs, node_id=s['id'])
-    elif call == 'add_facility' and s.get('pre_taken'):
-        # a derived id ('<id>-ns') is already used by some element: make it so, then call
-        raise SkipStep()
     elif call == 'set_properties_raw':
         from .w2_props import get_element
         e = get_element(w, s['kind'], s['ref'])
